@@ -297,6 +297,10 @@ def lift(v, ty=None):
 def coerce(sv, ty):
     if sv.ty == ty:
         return sv
+    if hasattr(sv.ty, 'coerce_to'):
+        r = sv.ty.coerce_to(sv, ty)
+        if r is not None:
+            return r
     if isinstance(ty, Opt) and sv.ty == ty.inner:
         return SV(ty, ty.some(sv.z))
     if isinstance(ty, Opt) and isinstance(sv.ty, Opt):
